@@ -320,6 +320,15 @@ func c06Reopen(c *mon.Case, cfg Cfg, image *memds.DS, chainLen int, sig string, 
 			}
 		}
 	}
+	// HasAt must answer (never crash) on whatever survived, and never claim a height that cannot be read
+	for h := uint64(0); h <= uint64(chainLen)+1; h++ {
+		if e.st.HasAt(context.Background(), h) {
+			if g, err := e.getByHeight(h); err != nil || g.Height() != h {
+				c.Violation(sig+"/hasat-true-but-unreadable", fmt.Sprintf("HasAt(%d) is true but GetByHeight fails: %v", h, err), detail)
+				return
+			}
+		}
+	}
 	for h := range e.P {
 		if g, err := e.getByHeight(h); err != nil || g.Height() != h {
 			// only heights at or below Height() can be asked without waiting; others are checked by hash
